@@ -494,12 +494,16 @@ class OdeSeamEngine:
                 s2 = copy.deepcopy(spec)
                 del s2["problem"]["terms"][i]
                 yield s2
+        if any(c[0] == "scaled" for c in P["coeffs"]):
+            s2 = copy.deepcopy(spec)
+            s2["problem"]["coeffs"] = [c[2] if c[0] == "scaled" else c for c in P["coeffs"]]
+            yield s2
         for i, c in enumerate(P["coeffs"][:-1]):
-            if c[0] != "const":
+            if c[0] not in ("const", "scaled"):
                 s2 = copy.deepcopy(spec)
                 s2["problem"]["coeffs"][i] = ["const", c[1]]
                 yield s2
-        if P["coeffs"][-1] != ["const", 1.0]:
+        if P["coeffs"][-1] != ["const", 1.0] and P["coeffs"][-1][0] != "scaled":
             s2 = copy.deepcopy(spec)
             s2["problem"]["coeffs"][-1] = ["const", 1.0]
             yield s2
